@@ -758,8 +758,12 @@ impl Xot {
                         span_info.extend_text_span(node_id.into(), text.into());
                     }
                     Cdata { text, span: _ } => {
-                        let node_id = builder.cdata_text(text.as_str(), self)?;
-                        span_info.extend_text_span(node_id.into(), text.into());
+                        // an empty CDATA section is no character data at all:
+                        // it must not leave an empty text node behind
+                        if !text.as_str().is_empty() {
+                            let node_id = builder.cdata_text(text.as_str(), self)?;
+                            span_info.extend_text_span(node_id.into(), text.into());
+                        }
                     }
                     ElementStart {
                         prefix,
